@@ -3849,11 +3849,19 @@ class ScoreVariant(object):
 
                     # make a copy of the object
                     o_copy = copy(o)
+                    # the shallow copy shares its lists of references
+                    # (slur_starts, tuplet_stops, ...) with the original; the
+                    # setters of the copied slurs and tuplets fill them again
+                    for attr in getattr(o_copy, "_ref_attrs", []):
+                        if isinstance(getattr(o_copy, attr), list):
+                            setattr(o_copy, attr, [])
                     # add it to the set of new objects (for which the refs will
                     # be replaced)
                     o_new.add(o_copy)
                     # keep track of the correspondence between o and o_copy
+                    # (a copy stands for itself)
                     o_map[o] = o_copy
+                    o_map[o_copy] = o_copy
                     # add the start of the new object to the part
                     tp_new.add_starting_object(o_copy)
                     if o.end is not None:
